@@ -1,64 +1,64 @@
 // REPLAY for property C14, harness k_dispatch (unit K-dispatch, engine kani)
 // Failed obligations:
-//   OBL:dispatch.badparam_on_latched_or_nonfinish_after_finish [C02 C14]  at miniz_oxide/src/deflate/core.rs:3120:13 in function deflate::core::verif_deflate_core::k_dispatch
+//   OBL:dispatch.badparam_on_latched_or_nonfinish_after_finish [C02 C14]  at miniz_oxide/src/deflate/core.rs:3153:13 in function deflate::core::verif_deflate_core::k_dispatch
 // no-failing-input-found: the verifier reported the failed obligation without a concrete model.
 // Verifier output (tail):
-//   Check 1339: memcmp.pointer_dereference.4
+//   Check 1359: memcmp.pointer_dereference.4
 //   	 - Status: SUCCESS
 //   	 - Description: "dereference failure: dead object"
 //   	 - Location: <builtin-library-memcmp>:27 in function memcmp
 //   
-//   Check 1340: memcmp.pointer_dereference.5
+//   Check 1360: memcmp.pointer_dereference.5
 //   	 - Status: SUCCESS
 //   	 - Description: "dereference failure: pointer outside object bounds"
 //   	 - Location: <builtin-library-memcmp>:27 in function memcmp
 //   
-//   Check 1341: memcmp.pointer_dereference.6
+//   Check 1361: memcmp.pointer_dereference.6
 //   	 - Status: SUCCESS
 //   	 - Description: "dereference failure: invalid integer address"
 //   	 - Location: <builtin-library-memcmp>:27 in function memcmp
 //   
-//   Check 1342: memcmp.pointer_dereference.7
+//   Check 1362: memcmp.pointer_dereference.7
 //   	 - Status: SUCCESS
 //   	 - Description: "dereference failure: pointer NULL"
 //   	 - Location: <builtin-library-memcmp>:27 in function memcmp
 //   
-//   Check 1343: memcmp.pointer_dereference.8
+//   Check 1363: memcmp.pointer_dereference.8
 //   	 - Status: SUCCESS
 //   	 - Description: "dereference failure: pointer invalid"
 //   	 - Location: <builtin-library-memcmp>:27 in function memcmp
 //   
-//   Check 1344: memcmp.pointer_dereference.9
+//   Check 1364: memcmp.pointer_dereference.9
 //   	 - Status: SUCCESS
 //   	 - Description: "dereference failure: deallocated dynamic object"
 //   	 - Location: <builtin-library-memcmp>:27 in function memcmp
 //   
-//   Check 1345: memcmp.pointer_dereference.10
+//   Check 1365: memcmp.pointer_dereference.10
 //   	 - Status: SUCCESS
 //   	 - Description: "dereference failure: dead object"
 //   	 - Location: <builtin-library-memcmp>:27 in function memcmp
 //   
-//   Check 1346: memcmp.pointer_dereference.11
+//   Check 1366: memcmp.pointer_dereference.11
 //   	 - Status: SUCCESS
 //   	 - Description: "dereference failure: pointer outside object bounds"
 //   	 - Location: <builtin-library-memcmp>:27 in function memcmp
 //   
-//   Check 1347: memcmp.pointer_dereference.12
+//   Check 1367: memcmp.pointer_dereference.12
 //   	 - Status: SUCCESS
 //   	 - Description: "dereference failure: invalid integer address"
 //   	 - Location: <builtin-library-memcmp>:27 in function memcmp
 //   
 //   
 //   SUMMARY:
-//    ** 1 of 1340 failed (8 unreachable)
+//    ** 1 of 1360 failed (8 unreachable)
 //   
 //    ** 7 of 7 cover properties satisfied
 //   
 //   Failed Checks: "OBL:dispatch.badparam_on_latched_or_nonfinish_after_finish [C02 C14]"
-//    File: "miniz_oxide/src/deflate/core.rs", line 3120, in deflate::core::verif_deflate_core::k_dispatch
+//    File: "miniz_oxide/src/deflate/core.rs", line 3153, in deflate::core::verif_deflate_core::k_dispatch
 //   
 //   VERIFICATION:- FAILED
-//   Verification Time: 66.7786s
+//   Verification Time: 67.587875s
 //   
 //   Manual Harness Summary:
 //   Verification failed for - deflate::core::verif_deflate_core::k_dispatch
